@@ -11,7 +11,7 @@ tie modules.
 
 Afterwards the generated files are restored from the unmodified /repo and the scratch tree is removed.
 Usage: /venv/bin/python harness/dev/argv_tie_experiments.py [group ...]
-       (groups: init call submsg update commit tag push_tag add hooks)
+       (groups: init call submsg update commit tag push_tag add hooks seeded external)
 Output table: harness/dev/argv_tie_experiments.out.txt
 """
 import os
@@ -102,6 +102,10 @@ exp("call", "VCSAPI.__call__", V, "harmless", "output decoded without a local", 
 exp("call", "VCSAPI.__call__", V, "harmless", "keyword order of check_output", "sp.check_output(cmd_parts, env=env, stderr=sp.PIPE)",
     "sp.check_output(cmd_parts, stderr=sp.PIPE, env=env)")
 
+exp("call", "VCSAPI.__call__", V, "harmless", "comprehension -> explicit loop with .append (harmless2)", PARTS,
+    "        argv = []\n        for part in shlex.split(cmd_tmpl):\n            argv.append(part.format(**kwargs))\n",
+    also=[("sp.check_output(cmd_parts,", "sp.check_output(argv,")])
+
 # ---------------------------------------------------------------------------------------------------
 # cli._sub_msg_template
 # ---------------------------------------------------------------------------------------------------
@@ -121,6 +125,9 @@ exp("submsg", "cli._sub_msg_template", C, "harmless", "non-raw string literals w
     "    return re.sub(\"\\\\b(OLD|NEW)\\\\b\", \"{\\\\1_VERSION}\", message)\n")
 exp("submsg", "cli._sub_msg_template", C, "harmless", "result in a local, count=0 spelled out", SUB,
     "    result = re.sub(r\"\\b(OLD|NEW)\\b\", r\"{\\1_VERSION}\", message, count=0)\n    return result\n")
+
+exp("submsg", "cli._sub_msg_template", C, "harmless", "both literals in local variables (harmless2)", SUB,
+    "    word_re     = r\"\\b(OLD|NEW)\\b\"\n    replacement = r\"{\\1_VERSION}\"\n    return re.sub(word_re, replacement, message)\n")
 
 # ---------------------------------------------------------------------------------------------------
 # the message part of cli.update
@@ -254,6 +261,10 @@ exp("add", "VCSAPI.add", V, "harmless", "conjuncts commuted", "if self.name == '
 exp("add", "VCSAPI.add", V, "harmless", "no else after return", ADDH,
     "            if self.name == 'hg' and b\"already tracked!\" in (ex.stderr or b\"\"):\n                return\n            raise\n")
 
+exp("add", "VCSAPI.add", V, "harmless", "`if not (...): raise` followed by `return` (harmless2)", ADDH,
+    "            if not (self.name == 'hg' and b\"already tracked!\" in (ex.stderr or b\"\")):\n"
+    "                raise\n            # mercurial\n            return\n")
+
 # ---------------------------------------------------------------------------------------------------
 # hooks.run
 # ---------------------------------------------------------------------------------------------------
@@ -275,6 +286,11 @@ exp("hooks", "hooks.run", H, "harmless", "test flipped: success returns early", 
     "    if proc.returncode == 0:\n        return\n    logger.error(\"Script exited with an error. Stopping\")\n    sys.exit(1)")
 exp("hooks", "hooks.run", H, "harmless", "command in a local variable, keyword order", "        proc = sp.Popen(str(pl.Path(path).absolute()), env=env, stdout=sp.PIPE, stderr=sp.PIPE)\n",
     "        script = str(pl.Path(path).absolute())\n        proc = sp.Popen(script, stdout=sp.PIPE, stderr=sp.PIPE, env=env)\n")
+exp("hooks", "hooks.run", H, "harmless", "draining loops restructured: `if not (x is None)`, line post-processed into a local (harmless2)",
+    "        if proc.stdout is not None:\n            with proc.stdout as out:\n                for line in iter(out.readline, b''):\n"
+    "                    logger.info(f\"\\t{line.decode('utf8').strip()}\")\n",
+    "        if not (proc.stdout is None):\n            with proc.stdout as out_stream:\n                for out_line in iter(out_stream.readline, b''):\n"
+    "                    out_text = out_line.decode('utf8').strip()\n                    logger.info(f\"\\t{out_text}\")\n")
 exp("hooks", "hooks.run", H, "harmless", "OSError spelled out instead of IOError", "    except IOError as err:", "    except OSError as err:")
 
 def run(cmd, **kw):
@@ -298,6 +314,8 @@ SEEDED = [
     ("C12-split-formatted-command-string", "break"), ("C12-annotated-tag-falls-back", "break"),
     ("_harmless-refactor", "harmless"),
 ]
+# three independent behaviour-preserving refactorings of the whole package (patch files, when present)
+EXTERNAL = [("/tmp/proofwork/harmless%d.diff" % n, "harmless") for n in (1, 2, 3)]
 
 
 def main():
@@ -312,6 +330,11 @@ def main():
             if os.path.exists(pf):
                 todo.append(dict(group="seeded", func="seeded/" + name, file=None, kind=kind,
                                  label="patch.diff of the seeded change", patch=pf, edits=[]))
+    if "external" in only or not only:
+        for pf, kind in EXTERNAL:
+            if os.path.exists(pf):
+                todo.append(dict(group="external", func="patch/" + os.path.basename(pf), file=None, kind=kind,
+                                 label="independent behaviour-preserving refactoring of the package", patch=pf, edits=[]))
     for e in todo:
         if only and e["group"] not in only and e["func"] not in only:
             continue
